@@ -74,7 +74,7 @@ Invalidate(task, st) ==
   ELSE [st EXCEPT !.ck = [st.ck EXCEPT ![Key(task)] = None]]
 
 Body(mode) ==
-  CASE mode \in {"fail1"} -> [ran |-> <<1>>, exit |-> 201, how |-> "fail"]
+  CASE mode \in {"fail1", "failpre"} -> [ran |-> <<1>>, exit |-> 201, how |-> "fail"]   \* failpre: a nested task call fails on a precondition
     [] mode \in {"fail2"} -> [ran |-> <<1, 2>>, exit |-> 201, how |-> "fail"]
     [] mode \in {"kill1"} -> [ran |-> <<1>>, exit |-> 137, how |-> "kill"]
     [] mode \in {"kill2"} -> [ran |-> <<1, 2>>, exit |-> 137, how |-> "kill"]
@@ -111,7 +111,7 @@ Predict(mode) ==
                 [] b.how = "fail" -> out(b.ran, b.exit, AfterFailure(task, st))
                 [] b.how = "kill" -> out(b.ran, b.exit, st)
 
-Modes == {"run", "other", "fail1", "fail2", "kill1", "kill2", "prompt", "force", "dry", "status", "list", "listjson", "summary", "drydir"}
+Modes == {"run", "other", "fail1", "fail2", "failpre", "kill1", "kill2", "prompt", "force", "dry", "status", "list", "listjson", "summary", "drydir"}
 
 \* an invocation as the model sees it: the observation is the prediction, read-only modes change nothing
 Invoke(mode) ==
@@ -123,7 +123,7 @@ Invoke(mode) ==
 Ops == {[op |-> o, f |-> f] : o \in {"edit", "touch", "add", "addold", "rm"}, f \in Files}
        \cup {[op |-> "ren", f |-> "a", g |-> "b"], [op |-> "ren", f |-> "b", g |-> "a"], [op |-> "rmgen"], [op |-> "flip"]}
 
-Configs == [method : {"checksum", "timestamp"}, gen : BOOLEAN, status : BOOLEAN, prompt : BOOLEAN, collide : BOOLEAN]
+Configs == [method : {"checksum", "timestamp"}, gen : BOOLEAN, status : BOOLEAN, prompt : BOOLEAN, collide : BOOLEAN, reinc : BOOLEAN]
 
 Init == /\ cfg \in Configs /\ WorldInit /\ MonInit /\ StoreInit
 
